@@ -73,6 +73,14 @@ def _split2(inner: str):
     return inner, ""
 
 
+def rejects_input(if_stmt: ast.If, taken: bool) -> bool:
+    """`if <unsupported input>: raise ...` seen from the arm that goes on (``taken``): the other arm ends in a raise and leaves the routine in no
+    other way.  The routine rejects such an input as a whole - that restricts the inputs it runs on, it is not a condition under which a
+    later statement is skipped while the routine goes on."""
+    other = if_stmt.orelse if taken else if_stmt.body
+    return bool(other) and isinstance(other[-1], ast.Raise) and not any(isinstance(x, (ast.Return, ast.Continue, ast.Break)) for st_ in other for x in ast.walk(st_))
+
+
 def guard_literals(nf: NF, cfg, mi, node_id: int, drop_loops: bool = True, inline: bool = False) -> list[str]:
     """Canonical literals that hold whenever ``node_id`` executes (control dependence, aliases expanded, and() flattened).
 
@@ -111,6 +119,8 @@ def guard_literals(nf: NF, cfg, mi, node_id: int, drop_loops: bool = True, inlin
         if reach[True] == reach[False]:
             continue
         lab = True if reach[True] else False
+        if rejects_input(bn.ast, lab):
+            continue
         names = {x.id for x in ast.walk(bn.ast.test) if isinstance(x, ast.Name)}
         if not all(rd[node_id].get(nm) == rd[bn.id].get(nm) for nm in names):
             continue
